@@ -3,9 +3,10 @@
    (report bytes, bytes received by the server, exit status, and the relayed line of qmail-rspawn's
    report()); the property predicates `verdictOK (expect …)/kSound/rcptOrder/wireOrderQ` (Nq.Spec.RemoteVerdict)
    are evaluated — strictly, also when the QUIT write fails — on what the implementation printed, against
-   the line-based reading of the server's stream. The model is told on which side of `flagcritical = 1` a
-   failing write of blast() happened (harness label body/final); the oracle is not: it relabels such a
-   write from its bytes (`critWrite`: does it carry the last byte of the encoded message?).
+   the line-based reading of the server's stream. The harness names a failing write by its bytes only and
+   never reads the client's `flagcritical`: for the model the driver derives from the bytes whether a
+   failing write of blast() came after `flagcritical = 1` (`flagWrite`), for the oracle whether it carried
+   the last byte of the encoded message (`critWrite`) — only then is the "Possible duplicate!" flag required.
    The one open finding (a failing QUIT write replaces a decided K/D by "connection died") is tagged
    `known=C09-quit-write-failure` on its ORACLE line, for exactly that case.
    `R` lines: the real qmail-rspawn report() — compared with `rreport`; predicates
@@ -70,6 +71,11 @@ def parseOut (out : Bytes) : Option Obs :=
 def oracleLabel (a : Args) (msg wire wtry : Bytes) (wf : Option WPoint) : Option WPoint :=
   oracleWf wf ((rblast msg).isSome && !a.msgErr && critWrite a (encodedBody msg) wire wtry)
 
+/-- the failing write as the model is told: `final` iff by the bytes it was issued after `flagcritical = 1`
+    (never when blast() stops at a read error or a partial last line) -/
+def modelLabel (a : Args) (msg wire wtry : Bytes) (wf : Option WPoint) : Option WPoint :=
+  oracleWf wf ((rblast msg).isSome && !a.msgErr && flagWrite a (encodedBody msg) wire wtry)
+
 /-- exactly the open finding: the failing write is the QUIT, the rules had decided K or D, nothing else
     is wrong, and the last report is `dropped()`'s unflagged "connection died" for this host -/
 def isQuitFinding (host : Bytes) (wf : Option WPoint) (wtry : Bytes) (e : Exp) (why : String) (out : Bytes) : Bool :=
@@ -85,13 +91,15 @@ def handleS (st : Stats) (line : String) (f : List String) : IO Stats := do
           parseWPoint wlabelS, unhex outS, unhex wireS, unhex relayS, unhex wtryS with
     | some host, some helo, some sender, some rcpts, some msg, some stream, some wf, some out, some wire, some relay, some wtry =>
       let a : Args := { host, helo, sender, rcpts, msg, msgErr := msgerrS == "1" }
-      let sc : Script := { stream, wfail := wf }
-      let inKey := hash (String.intercalate " " [ipS, heloS, senderS, rcptsS, msgS, msgerrS, streamS, wlabelS])
+      let mwf := modelLabel a msg wire wtry wf
+      let sc : Script := { stream, wfail := mwf }
+      let mlab := if mwf == some .final then "final" else wlabelS
+      let inKey := hash (String.intercalate " " [ipS, heloS, senderS, rcptsS, msgS, msgerrS, streamS, mlab])
       let fresh := !st.seen.contains inKey
       let mut st := { st with cases := st.cases + 1, seen := st.seen.insert inKey }
       st := st.bump "smtp_cases"
       st := st.bump ("chunk" ++ chunk)
-      st := st.bump ("wfail_" ++ (if wlabelS.startsWith "rcpt" then "rcpt" else wlabelS))
+      st := st.bump ("wfail_" ++ (if wlabelS.startsWith "rcpt" then "rcpt" else mlab))
       st := st.bump ("nrcpt" ++ toString (min rcpts.length 4))
       -- model
       let res := smtpRun a sc
@@ -107,7 +115,7 @@ def handleS (st : Stats) (line : String) (f : List String) : IO Stats := do
       st := st.bump (if wfS then "stream_wellformed" else "stream_garbage")
       let owf := oracleLabel a msg wire wtry wf
       if owf == some .final then st := st.bump "critical_write_by_bytes"
-      if wf == some .final && owf == some .body then st := st.bump "flag_set_but_write_not_critical"
+      if mwf == some .final && owf == some .body then st := st.bump "flag_set_but_write_not_critical"
       let as : AScript := { codes, n := rcpts.length, msgErr := a.msgErr,
                             msgPartial := partialMsg msg (rblast msg).isNone, wfail := owf }
       let e := expect as
@@ -197,7 +205,7 @@ def handleM (st : Stats) (line : String) (f : List String) : IO Stats := do
       let fresh := !st.seen.contains inKey
       let mut st := { st with cases := st.cases + 1, seen := st.seen.insert inKey }
       st := st.bump "main_cases"
-      let res := mainRun dnsret (lit "host.example") cs a ⟨stream, wf⟩
+      let res := mainRun dnsret (lit "host.example") cs a ⟨stream, modelLabel a a.msg wire wtry wf⟩
       let mtrace := traceStr (connectTrace dnsret cs)
       if !(render res == out && wireAgrees res a.msg wire && exitS == "0" && mtrace == traceS) then
         IO.println s!"DISAGREE kind=M in={streamS} dnsret={dnsS} cands={candsS} wk={wk} wlabel={wlabelS} impl_out={outS} impl_wire={wireS} exit={exitS} impl_trace={traceS} model_out={hex (render res)} model_wire={hex res.wire} model_trace={mtrace}"
